@@ -8,7 +8,11 @@ for id in $ids; do
   prop=${id%-*}
   kept=$(python3 -c "import json;print(json.load(open('/verif/seeded/$id/meta.json'))['confirmed'].get('kept'))")
   [ "$kept" != "True" ] && { echo "$id skipped (not kept)"; continue; }
-  if ! git -C /repo apply --check /verif/seeded/$id/patch.diff 2>/dev/null && ! git -C /repo diff --quiet; then echo "$id /repo-dirty"; continue; elif ! git -C /repo apply --check /verif/seeded/$id/patch.diff 2>/dev/null; then echo "$id PATCH-DOES-NOT-APPLY"; continue; fi
+  if ! git -C /repo diff --quiet; then echo "$id /repo-dirty"; continue; fi
+  if ! git -C /repo apply --check /verif/seeded/$id/patch.diff 2>/dev/null; then
+    base=$(python3 -c "import json;print(json.load(open('/verif/seeded/$id/meta.json')).get('base_commit',''))")
+    [ -z "$base" ] && { echo "$id PATCH-DOES-NOT-APPLY"; continue; }
+  fi
   out=$(tools/seed_run.sh /verif/seeded/$id/patch.diff quick $prop 2>&1)
   rc=$(echo "$out" | grep -o "rc=[0-9]*" | head -1)
   sig=$(echo "$out" | grep -o "signature=[^ ]*" | head -1)
